@@ -76,7 +76,7 @@ fn gen_value(r: &mut Rng, depth: usize) -> RVal {
         1 => RVal::Bool(r.chance(1, 2)),
         2 => RVal::Int(r.choose(&[0, 1, -1, 42, i64::MAX, i64::MIN, 1 << 53])),
         3 => RVal::Float(r.choose(&[0.0, -0.0, 0.5, 1.0, -2.25, 1e300, 123456789.125])),
-        4 => s(r.choose(&["", " ", "a", "é", "42", "-7", "1.5", "true", "nil", "hello world", "[1]", "{}"])),
+        4 => s(r.choose(&["", " ", "a", "é", "42", "-7", "1.5", "true", "nil", "hello world", "[1]", "{}", "01 March 2022", "1 Mar 2022", "today", "now", "March 1, 2022", "2022-03-01 10:00", "12:30"])),
         5 => RVal::Date(r.choose(&["2020-02-29", "1999-12-31"]).to_string()),
         6 => RVal::DateTime(r.choose(&["2020-02-29 10:00:00 +0100", "1970-01-01 00:00:00 +0000", "2001-09-09 01:46:40.5 -0330"]).to_string()),
         7 => s(r.choose(&["x", "Yy", "\n", "\"q\"", "a,b"])),
@@ -106,11 +106,42 @@ fn json_representable(v: &RVal) -> bool {
         // dates are encoded as strings by design: excluded from the kind clause
         RVal::Date(_) | RVal::DateTime(_) | RVal::Empty | RVal::Blank => false,
         // a date-shaped string is indistinguishable from a date after the round trip
-        RVal::Str(s) => liquid::model::DateTime::from_str(s).is_none() && liquid::model::Date::from_str(s).is_none(),
+        RVal::Str(s) => !canonical_date_text(s),
         RVal::Array(xs) => xs.iter().all(json_representable),
         RVal::Object(kv) => kv.iter().all(|(_, v)| json_representable(v)),
         _ => true,
     }
+}
+
+/// Is `s` written in one of the two shapes in which dates travel through serde
+/// (`YYYY-MM-DD`, `YYYY-MM-DD HH:MM:SS[.f] +HHMM`)? Decided on the characters alone -- not with the
+/// library's own (user-facing, more lenient) date parser.
+fn canonical_date_text(s: &str) -> bool {
+    let b = s.as_bytes();
+    let digits = |r: std::ops::Range<usize>| r.end <= b.len() && b[r].iter().all(|c| c.is_ascii_digit());
+    let date = b.len() >= 10 && digits(0..4) && b[4] == b'-' && digits(5..7) && b[7] == b'-' && digits(8..10);
+    if !date {
+        return false;
+    }
+    if b.len() == 10 {
+        return true;
+    }
+    // time part: " HH:MM:SS" + optional ".f+" + " +HHMM"
+    if b.len() < 25 || b[10] != b' ' || !digits(11..13) || b[13] != b':' || !digits(14..16) || b[16] != b':' || !digits(17..19) {
+        return false;
+    }
+    let mut i = 19;
+    if b[i] == b'.' {
+        i += 1;
+        let start = i;
+        while i < b.len() && b[i].is_ascii_digit() {
+            i += 1;
+        }
+        if i == start {
+            return false;
+        }
+    }
+    b.len() == i + 6 && b[i] == b' ' && (b[i + 1] == b'+' || b[i + 1] == b'-') && digits(i + 2..i + 6)
 }
 
 fn has_numeric_string(v: &RVal) -> bool {
@@ -134,7 +165,7 @@ fn has_state(v: &RVal) -> bool {
 fn has_date(v: &RVal) -> bool {
     match v {
         RVal::Date(_) | RVal::DateTime(_) => true,
-        RVal::Str(s) => liquid::model::DateTime::from_str(s).is_some() || liquid::model::Date::from_str(s).is_some(),
+        RVal::Str(s) => canonical_date_text(s),
         RVal::Array(xs) => xs.iter().any(has_date),
         RVal::Object(kv) => kv.iter().any(|(_, v)| has_date(v)),
         _ => false,
@@ -541,6 +572,62 @@ fn check_struct(ctx: &mut Ctx, rich: &Rich, single: &Single, ts: &[liquid::Templ
     ctx.record(hash_str(&format!("{rich:?}{single:?}")), true);
 }
 
+/// Dates travel through serde as their default text (by design); what must hold is that the text is
+/// the printed form and that reading it back gives the same instant, offset and fraction.
+fn check_dates_through_serde(ctx: &mut Ctx) {
+    use liquid::model::{Date, DateTime};
+    let replay = || json!({"kind": "dates-through-serde"});
+    let texts = [
+        "2020-01-02 03:04:05 +0000",
+        "2020-01-02 03:04:05.5 +0100",
+        "2020-01-02 03:04:05.005 -0330",
+        "2020-01-02 03:04:05.000123 +0000",
+        "2020-01-02 03:04:05.000000001 +1400",
+        "2020-01-02 03:04:05.999999999 -1200",
+        "1969-12-31 23:59:59.000001 +0000",
+        "0001-01-01 00:00:00 +0000",
+        "9999-12-31 23:59:59 +0000",
+    ];
+    #[derive(Serialize, Deserialize, Debug, PartialEq)]
+    struct Stamped {
+        at: DateTime,
+        on: Date,
+    }
+    for t in texts {
+        ctx.count("dates-through-serde:date-times");
+        let Some(d) = DateTime::from_str(t) else {
+            ctx.violation("serde:date-text-not-parsed", &format!("DateTime::from_str({t:?}) is None"), replay);
+            continue;
+        };
+        let printed = d.to_string();
+        let r = guard(|| {
+            let v = to_value(&d).ok()?;
+            let shown = v.render().to_string();
+            let back = from_value::<DateTime>(&v).ok();
+            let on = d.date();
+            let obj = liquid::to_object(&Stamped { at: d, on }).ok()?;
+            let back2 = from_value::<Stamped>(obj.as_value()).ok();
+            Some((shown, back, back2.map(|s| (s.at, s.on)), on))
+        });
+        match r {
+            Err(p) => ctx.violation(&p.key(), &format!("date-time {t} through serde panicked: {}", p.msg), replay),
+            Ok(None) => ctx.violation("serde:date-rejected", &format!("to_value / to_object of the date-time {t} failed"), replay),
+            Ok(Some((shown, back, back2, on))) => {
+                if shown != printed {
+                    ctx.violation("serde:date-printed-form-changes", &format!("date-time {printed} serialises as {shown:?}"), replay);
+                }
+                if back != Some(d) {
+                    ctx.violation("serde:date-roundtrip-changes-value", &format!("date-time {printed} came back as {:?}", back.map(|b| b.to_string())), replay);
+                }
+                if back2 != Some((d, on)) {
+                    ctx.violation("serde:date-roundtrip-changes-value", &format!("struct {{at: {printed}, on: {on}}} came back as {:?}", back2.map(|(a, o)| (a.to_string(), o.to_string()))), replay);
+                }
+            }
+        }
+    }
+    ctx.record(hash_str("dates-through-serde"), true);
+}
+
 fn check_out_of_range(ctx: &mut Ctx) {
     let replay = || json!({"kind": "out-of-range"});
     // through Rust integer types
@@ -765,6 +852,7 @@ pub fn run(ctx: &mut Ctx, args: &[String]) {
     // (D)
     if ctx.shard == 0 {
         check_out_of_range(ctx);
+        check_dates_through_serde(ctx);
     }
     // (E) Rust shapes other than the plain struct: narrow integers, f32, char, newtype / tuple /
     // unit structs, tuples, unit enum variants, maps with integer keys
@@ -957,6 +1045,7 @@ pub fn replay(j: &serde_json::Value) -> bool {
             }
             ctx.violations = std::mem::take(&mut c2.violations);
         }
+        "dates-through-serde" => check_dates_through_serde(&mut ctx),
         _ => check_out_of_range(&mut ctx),
     }
     for v in &ctx.violations {
